@@ -132,7 +132,7 @@ def check(prog, rep):
         'degenerate eigenspace; (I) no integer literal singles out a node position of a connection matrix. Equivariance itself (tie-breaking '
         'in argmax/argmin, accumulated rounding, every algebraic identity) is not decided.')
     rep.assume('seed-accepting (randomised) routines are outside this property')
-    n_loops = n_funcs = n_sub = n_roles = 0
+    n_loops = n_funcs = n_sub = n_roles = n_exit = n_pairidx = 0
     for mn in MODS:
         m = prog.module('bct.algorithms.' + mn)
         for f in sorted(m.functions.values(), key=lambda z: z.node.lineno):
@@ -143,6 +143,41 @@ def check(prog, rep):
                 continue
             n_funcs += 1
             n_roles += pair_roles(rep, f)
+            # U: the coordinate arrays of np.where over a matrix are unique only as *pairs*; a store indexed by one of them alone can
+            # hit the same cell several times, and NumPy keeps the last write (row-major order = node numbering)
+            pairs = {}
+            for st in walk_no_nested(f.node):
+                if isinstance(st, ast.Assign) and len(st.targets) == 1 and isinstance(st.targets[0], ast.Tuple) and len(st.targets[0].elts) == 2 \
+                        and all(isinstance(e, ast.Name) for e in st.targets[0].elts) and isinstance(st.value, ast.Call) \
+                        and norm(st.value.func) in ('np.where', 'np.nonzero') and len(st.value.args) == 1:
+                    a_, b_ = (e.id for e in st.targets[0].elts)
+                    pairs[a_] = b_
+                    pairs[b_] = a_
+            for st in walk_no_nested(f.node):
+                if isinstance(st, (ast.Assign, ast.AugAssign)) and pairs:
+                    for t in (st.targets if isinstance(st, ast.Assign) else [st.target]):
+                        if isinstance(t, ast.Subscript):
+                            els = _idx(t)
+                            direct = {e.id for e in els if isinstance(e, ast.Name)}
+                            for nm in sorted(direct & set(pairs)):
+                                n_pairidx += 1
+                                if pairs[nm] not in direct:
+                                    rep.ob('U.store-indexed-by-half-of-a-coordinate-pair', f, st, False,
+                                           '`%s` comes from a two-output np.where together with `%s`; used alone as a store index it may contain the same '
+                                           'position several times, and only the last write survives (the one from the highest-numbered row): the result '
+                                           'depends on the node numbering (np.minimum.at / np.add.at would be order-free)' % (nm, pairs[nm]), line=st.lineno)
+            pmf = ParentMap(f.node)
+            for lp in [n for n in walk_no_nested(f.node) if isinstance(n, ast.For) and isinstance(n.target, ast.Name) and isinstance(n.iter, ast.Call)
+                       and norm(n.iter.func) == 'range' and len(n.iter.args) == 1]:
+                x = lp.target.id
+                if not any(isinstance(n, ast.Name) and n.id == x and isinstance(n.ctx, ast.Load) for b_ in lp.body for n in ast.walk(b_)):
+                    continue
+                outs = [e for e in ast.walk(lp) if isinstance(e, ast.Return) or (isinstance(e, ast.Break) and pmf.loops(e) and pmf.loops(e)[0] is lp)]
+                n_exit += 1
+                if outs:
+                    rep.ob('L.node-loop-visits-every-node', f, 'for %s in %s' % (x, norm(lp.iter)), False,
+                           'the loop over nodes is left early (%s at line %d): nodes with a higher number are not processed, so the result depends on '
+                           'where the triggering node sits in the numbering' % (type(outs[0]).__name__.lower(), outs[0].lineno), line=lp.lineno)
             cands, nl = loop_carried(prog, f)
             n_loops += nl
             for (lp, arr, wt, rd) in cands:
@@ -222,6 +257,8 @@ def check(prog, rep):
     rep.ob('I.no-literal-node-index', ('bct/algorithms', '8 anchored modules'), '%d subscripts of connection-matrix parameters inspected' % n_sub, True, '', line=0)
     rep.ob('L.no-cross-node-flow-dependence', ('bct/algorithms', '8 anchored modules'), '%d node loops in %d deterministic routines inspected' % (n_loops, n_funcs), True, '', line=0)
     rep.stat('node_loops_inspected', n_loops)
+    rep.ob('U.store-indexed-by-half-of-a-coordinate-pair', ('bct/algorithms', '8 anchored modules'), '%d stores indexed by np.where coordinates inspected' % n_pairidx, True, '', line=0)
+    rep.ob('L.node-loop-visits-every-node', ('bct/algorithms', '8 anchored modules'), '%d node loops inspected for early exits' % n_exit, True, '', line=0)
     rep.stat('pair_role_assignments', n_roles)
     if n_roles < 4:
         rep.error('only %d single-role assignments in unordered-pair loops found (floor 4)' % n_roles)
@@ -327,6 +364,13 @@ def variants(root):
         V('flow_coef: literal node', 'break', 'bct/algorithms/centrality.py', 'def flow_coef_bd(CIJ):', 'def flow_coef_bd(CIJ):\n    _first = CIJ[0, 1]', 'I.', None),
         V('neutral: per-node row write', 'neutral', 'bct/algorithms/distance.py', '        D[i, :], _ = breadth(CIJ, i)\n', '        row, _ = breadth(CIJ, i)\n        D[i, :] = row\n', scope='def breadthdist('),
         V('neutral: accumulate with +=', 'neutral', 'bct/algorithms/centrality.py', '            BC[w] += DP[w]', '            BC[w] += DP[w] + 0', scope='def betweenness_wei('),
+        V('clustering_coef_bu: loop stops at the first low-degree node', 'break', 'bct/algorithms/clustering.py', '        if k >= 2:  # degree must be at least 2\n            S = G[np.ix_(V, V)]\n            C[u] = np.sum(S) / (k * k - k)',
+          '        if k < 2:\n            break\n        S = G[np.ix_(V, V)]\n        C[u] = np.sum(S) / (k * k - k)', 'L.node-loop-visits', 'clustering_coef_bu', scope='def clustering_coef_bu('),
+        V('neutral: clustering_coef_bu guard clause with continue', 'neutral', 'bct/algorithms/clustering.py', '        if k >= 2:  # degree must be at least 2\n            S = G[np.ix_(V, V)]\n            C[u] = np.sum(S) / (k * k - k)',
+          '        if k < 2:\n            continue\n        S = G[np.ix_(V, V)]\n        C[u] = np.sum(S) / (k * k - k)', scope='def clustering_coef_bu('),
+        V('efficiency_wei: relaxation vectorised over tied frontier nodes', 'break', 'bct/algorithms/efficiency.py',
+          '                for v in V:\n                    W, = np.where(G1[v, :])  # neighbors of smallest nodes\n                    td = np.array(\n                        [D[u, W].flatten(), (D[u, v] + G1[v, W]).flatten()])\n                    D[u, W] = np.min(td, axis=0)\n',
+          '                vi, W = np.where(G1[np.array(V), :])\n                v = np.array(V)[vi]\n                D[u, W] = np.minimum(D[u, W], D[u, v] + G1[v, W])\n', 'U.store-indexed', None, scope='def efficiency_wei('),
         V('matching_ind: second node read along the other axis', 'break', 'bct/algorithms/similarity.py', 'c2o = CIJ[j, :]', 'c2o = CIJ[:, j]', 'P.unordered', 'matching_ind', scope='def matching_ind('),
         V('matching_ind: first node read along the other axis', 'break', 'bct/algorithms/similarity.py', 'c1i = CIJ[:, i]', 'c1i = CIJ[i, :]', 'P.unordered', 'matching_ind', scope='def matching_ind('),
         V('neutral: matching_ind rows via take', 'neutral', 'bct/algorithms/similarity.py', '            c1o = CIJ[i, :]\n            c2o = CIJ[j, :]', '            c1o = CIJ[i]\n            c2o = CIJ[j]', scope='def matching_ind('),
